@@ -78,6 +78,36 @@ theorem accepted_of_validate {n r p k : Int} (hkI : k < 2 ^ 63) (h : validate n 
         omega
       exact ⟨by omega, by have := hn; simp at this; exact this.2, by omega, by omega, hrp30, h4', by omega, by omega⟩
 
+/-- the accepted set in plain arithmetic: N a power of two ≥ 2 (as `N&(N-1) = 0`), r, p ≥ 1,
+    r·p < 2^30, N·r ≤ 2^56 − 1 (= maxInt/128), 1 ≤ keyLen ≤ (2^32−1)·32 -/
+theorem validate_accept_iff {n r p k : Int} (hkI : k < 2 ^ 63) :
+    validate n r p k = .accept ↔ Accepted n r p k := by
+  constructor
+  · exact accepted_of_validate hkI
+  · rintro ⟨n2, np, r1, p1, rp, nr, k1, kmax⟩
+    have hpp : 1 * p ≤ r * p := Int.mul_le_mul_of_nonneg_right r1 (by omega)
+    have hrr : r * 1 ≤ r * p := Int.mul_le_mul_of_nonneg_left p1 (by omega)
+    unfold validate
+    rw [if_neg (by simp [np]; omega), if_neg (by omega)]
+    have ht : tooLarge n r p = some false := by
+      unfold tooLarge goDiv
+      rw [maxInt128, maxInt256, if_neg (by omega : ¬ p = 0), if_neg (by omega : ¬ r = 0)]
+      dsimp only
+      have hR : r.toNat % 2 ^ 64 = r.toNat := Nat.mod_eq_of_lt (by omega)
+      have hP : p.toNat % 2 ^ 64 = p.toNat := Nat.mod_eq_of_lt (by omega)
+      have e : (r * p) = ((r.toNat * p.toNat : Nat) : Int) := by
+        rw [Int.natCast_mul, Int.toNat_of_nonneg (by omega), Int.toNat_of_nonneg (by omega)]
+      have hlt : r.toNat * p.toNat < 2 ^ 64 := by omega
+      rw [hR, hP, Nat.mod_eq_of_lt hlt]
+      rw [if_neg (by omega)]
+      have h2 : r ≤ (2 ^ 56 - 1 : Int).tdiv p := (le_tdiv_iff (by decide) (by omega)).2 (by omega)
+      have h4 : n ≤ (2 ^ 56 - 1 : Int).tdiv r := (le_tdiv_iff (by decide) (by omega)).2 nr
+      rw [if_neg (by omega), if_neg (by omega), if_neg (by omega)]
+    rw [ht]
+    dsimp only
+    have : k.toNat % 2 ^ 64 = k.toNat := Nat.mod_eq_of_lt (by omega)
+    rw [if_neg (by rw [this]; omega)]
+
 /-- **validate_no_overflow.** For parameters that pass every check of `Key`, the true (unbounded)
     products fit in a Go `int`, so each wrapped `int` expression of the code equals the
     mathematical value: `64*r`, `32*N*r`, `p*128*r`; also r·p < 2^30 holds for the true product
